@@ -760,7 +760,8 @@ Definition all_ok (cbs : list (N * N * bool)) : Prop := forall t, In t cbs -> sn
 
 Lemma exec_effs_valid step e effs : forall g l,
   g_htlock g = false -> forallb (eff_valid e) effs = true -> cache_fresh e g effs -> all_ok (l_startups l) ->
-  exists g' l', exec_effs step e effs g l = (ROk, g', l') /\ all_ok (l_startups l').
+  exists g' l', exec_effs step e effs g l = (ROk, g', l') /\ all_ok (l_startups l') /\
+                l_auth l' = expected_auth e effs (l_auth l).
 Proof.
   induction effs as [|x effs IH]; intros g l L V CF AO; simpl.
   - eauto.
@@ -769,8 +770,10 @@ Proof.
     destruct x as [|n|f size ok|f u]; simpl in V1.
     + discriminate.
     + apply IH; auto.
-    + apply IH; auto. simpl. intros t Hin. apply in_app_or in Hin as [Hin|[Hin|[]]]; [auto|].
-      subst t. simpl. exact V1.
+    + match goal with |- context [exec_effs step e effs g ?l1] =>
+        destruct (IH g l1) as (g' & l' & E & A & B); auto end.
+      { simpl. intros t Hin. apply in_app_or in Hin as [Hin|[Hin|[]]]; [auto|]. subst t. simpl. exact V1. }
+      exists g', l'. repeat split; auto.
     + apply andb_true_iff in V1 as [V1 V1c]. apply andb_true_iff in V1 as [V1a V1b].
       unfold get_matcher, get_matcher_gen. rewrite L.
       pose proof (CF f u (or_introl eq_refl)) as CFf.
@@ -784,8 +787,13 @@ Proof.
       destruct (assoc u (h_users hf)) as [pw|] eqn:AU; [|discriminate].
       destruct CFf as [C|C]; rewrite C.
       * rewrite V1a. apply negb_true_iff in V1b. rewrite V1b. cbn [negb].
-        apply IH; auto.
-      * rewrite AU. apply IH; auto.
+        match goal with |- context [exec_effs step e effs ?g1 ?l1] =>
+          destruct (IH g1 l1) as (g' & l' & E & A & B); auto end.
+        exists g', l'. repeat split; auto.
+      * rewrite AU.
+        match goal with |- context [exec_effs step e effs ?g1 ?l1] =>
+          destruct (IH g1 l1) as (g' & l' & E & A & B); auto end.
+        exists g', l'. repeat split; auto.
 Qed.
 
 Lemma run_startups_all_ok cbs : forall g, all_ok cbs -> exists g', run_startups cbs g = (ROk, g').
@@ -805,22 +813,24 @@ Qed.
 
 Lemma start_with_valid step e c old g :
   g_htlock g = false -> cfg_valid e c = true -> cache_fresh e g (c_effs c) ->
-  exists g' ni, start_with step e c old g = (ROk, g', Some ni) /\ i_cfg ni = c_id c.
+  exists g' ni, start_with step e c old g = (ROk, g', Some ni) /\ i_cfg ni = c_id c /\
+                i_auth ni = expected_auth e (c_effs c) None.
 Proof.
   intros L V CF. unfold cfg_valid in V.
   apply andb_true_iff in V as [V V4]. apply andb_true_iff in V as [V V3]. apply andb_true_iff in V as [V1 V2].
   unfold start_with. rewrite V1. simpl.
-  destruct (exec_effs_valid step e (c_effs c) g l0 L V2 CF) as (g1 & l1 & E1 & AO); [intros t []|].
+  destruct (exec_effs_valid step e (c_effs c) g l0 L V2 CF) as (g1 & l1 & E1 & AO & AU); [intros t []|].
   rewrite E1.
   destruct (run_startups_all_ok (l_startups l1) g1 AO) as (g2 & E2). rewrite E2.
   destruct (start_servers old (c_addrs c) g2 []) as [[r3 g3] srv] eqn:E3.
   pose proof (start_servers_no_busy _ _ _ _ _ _ _ (forallb_free_no_busy _ V3) E3) as ->.
-  eexists. eexists. split; [reflexivity|reflexivity].
+  eexists. eexists. split; [reflexivity|]. split; [reflexivity|exact AU].
 Qed.
 
 Theorem valid_load_succeeds step e c g :
   g_htlock g = false -> cfg_valid e c = true -> cache_fresh e g (c_effs c) ->
-  exists g' ni, do_load step e c g = (ROk, g') /\ g_insts g' = g_insts g ++ [ni] /\ i_cfg ni = c_id c.
+  exists g' ni, do_load step e c g = (ROk, g') /\ g_insts g' = g_insts g ++ [ni] /\ i_cfg ni = c_id c /\
+                i_auth ni = expected_auth e (c_effs c) None.
 Proof.
   intros L V CF. destruct (start_with_valid step e c [] g L V CF) as (g1 & ni & S & I).
   unfold do_load. rewrite S. eexists. exists ni. split; [reflexivity|]. split; [|exact I].
@@ -829,7 +839,8 @@ Qed.
 
 Theorem valid_reload_succeeds step e c g old rest :
   g_htlock g = false -> g_insts g = old :: rest -> cfg_valid e c = true -> cache_fresh e g (c_effs c) ->
-  exists g' ni, do_reload step e c g = (ROk, g') /\ g_insts g' = rest ++ [ni] /\ i_cfg ni = c_id c.
+  exists g' ni, do_reload step e c g = (ROk, g') /\ g_insts g' = rest ++ [ni] /\ i_cfg ni = c_id c /\
+                i_auth ni = expected_auth e (c_effs c) None.
 Proof.
   intros L GI V CF. destruct (start_with_valid step e c (i_servers old) g L V CF) as (g1 & ni & S & I).
   unfold do_reload. rewrite GI, S. eexists. exists ni. split; [reflexivity|]. split; [reflexivity|exact I].
@@ -846,7 +857,8 @@ Qed.
 Theorem valid_load_after_any_history h e rs e' g' step v :
   run 1 h (e, g0) = (rs, (e', g')) ->
   cfg_valid e' v = true -> cache_fresh e' g' (c_effs v) ->
-  exists g'' ni, do_load step e' v g' = (ROk, g'') /\ g_insts g'' = g_insts g' ++ [ni] /\ i_cfg ni = c_id v.
+  exists g'' ni, do_load step e' v g' = (ROk, g'') /\ g_insts g'' = g_insts g' ++ [ni] /\ i_cfg ni = c_id v /\
+                 i_auth ni = expected_auth e' (c_effs v) None.
 Proof.
   intros R V CF. destruct (run_never_hangs h 1 e g0 rs e' g' eq_refl R) as [L _].
   apply valid_load_succeeds; auto.
